@@ -504,3 +504,40 @@ pub fn split_req(req: &str) -> Option<(String, Cfg, Vec<(String, Vec<Tuple>)>, V
     let (edb, rules) = parse_items(items)?;
     Some((op, cfg, edb, rules))
 }
+
+// ---------------------------------------------------------------- ranking aggregates (IQL text only)
+
+/// Programs with a ranking aggregate head (`top_k`, `top_k_threshold`, `within_radius`) over a single
+/// positive atom `w(G, I, S)` (optionally a filter / a computed column), plus a query head.
+/// Ranking aggregates are not part of the wire AST / Lean model: the program travels as IQL text.
+/// Returns (shape, text, arity of the answer).
+pub fn gen_ranking(ctx: &mut Ctx) -> (&'static str, String, usize) {
+    let k = 1 + ctx.below(3);
+    let dir = *ctx.pick(&[":desc", ":asc"]);
+    let grouped = ctx.chance(2, 3);
+    let (gh, gq) = if grouped { ("G, ", "G, ") } else { ("", "") };
+    let garg = if grouped { "G" } else { "_" };
+    let ar = if grouped { 3 } else { 2 };
+    let (shape, head_agg, body): (&'static str, String, String) = match ctx.below(6) {
+        0 | 1 => ("top_k", format!("top_k<{k}, I, S{dir}>"), format!("w({garg}, I, S)")),
+        2 => ("top_k_filter", format!("top_k<{k}, I, S{dir}>"), format!("w({garg}, I, S), S > {}", ctx.range(0, 3))),
+        3 => ("top_k_computed", format!("top_k<{k}, I, T{dir}>"), format!("w({garg}, I, S), T = S + I")),
+        4 => ("top_k_threshold", format!("top_k_threshold<{k}, {}.0, I, S{dir}>", ctx.range(1, 6)), format!("w({garg}, I, S)")),
+        _ => ("within_radius", format!("within_radius<{}.0, I, S:asc>", ctx.range(1, 6)), format!("w({garg}, I, S)")),
+    };
+    let text = format!("a({gh}{head_agg}) <- {body}\nq({gq}I, S) <- a({gq}I, S)");
+    (shape, text, ar)
+}
+/// facts for `w(G, I, S)`: two groups, more qualifying rows per group than any k, spread over partitions.
+pub fn gen_ranking_edb(ctx: &mut Ctx) -> Vec<(String, Vec<Tuple>)> {
+    let n = *ctx.pick(&[0usize, 4, 12, 25, 40]);
+    let mut ts: Vec<Tuple> = vec![];
+    for i in 0..n { let t = int_tuple(&[ctx.range(0, 1), i as i64, ctx.range(0, 9)]); if !ts.contains(&t) { ts.push(t); } }
+    vec![("w".to_string(), ts)]
+}
+/// run IQL text (no wire form) on the real engine.
+pub fn run_engine_text(cfg: &Cfg, edb: &[(String, Vec<Tuple>)], text: &str) -> String {
+    let mut e = new_engine(cfg);
+    for (r, ts) in edb { e.add_tuples(r, ts.clone()); }
+    match e.execute_tuples(text) { Ok(ts) => rel_to_wire(&ts), Err(m) => err_class(&m) }
+}
